@@ -60,7 +60,12 @@ ObsVerdict(s, ids, wf, x) ==
 
 TextVerdict(x) ==
   LET inp == [i \in 1..Len(x.inp) |-> [a |-> x.inp[i][1], t |-> x.inp[i][2]]]
-  IN IF PlainPreserved(inp, x.out) THEN "" ELSE "unannotated-text-changed"
+      (* "included files are spliced only for the contexts they name": x.forb = tokens of the lines of a file that is named, *)
+      (* inside an included file, by an include line whose context list does NOT contain this target                        *)
+      forb == {x.forb[i] : i \in DOMAIN x.forb}
+  IN IF ~PlainPreserved(inp, x.out) THEN "unannotated-text-changed"
+     ELSE IF \E k \in DOMAIN x.out : x.out[k] \in forb THEN "file-spliced-for-a-context-it-does-not-name"
+     ELSE ""
 
 TInit == tid = 0 /\ src = <<>>
 PrintObs(r, k) ==
